@@ -225,7 +225,9 @@ impl RawArgs {
     /// println!("{paths:?}");
     /// ```
     pub fn remaining(&self, cursor: &mut ArgCursor) -> impl Iterator<Item = &OsStr> {
-        let remaining = self.items[cursor.cursor..].iter().map(|s| s.as_os_str());
+        // `next_os` may have moved the cursor one past the end
+        let start = cursor.cursor.min(self.items.len());
+        let remaining = self.items[start..].iter().map(|s| s.as_os_str());
         cursor.cursor = self.items.len();
         remaining
     }
@@ -247,10 +249,10 @@ impl RawArgs {
         cursor: &ArgCursor,
         insert_items: impl IntoIterator<Item = impl Into<OsString>>,
     ) {
-        self.items.splice(
-            cursor.cursor..cursor.cursor,
-            insert_items.into_iter().map(Into::into),
-        );
+        // `next_os` may have moved the cursor one past the end
+        let at = cursor.cursor.min(self.items.len());
+        self.items
+            .splice(at..at, insert_items.into_iter().map(Into::into));
     }
 
     /// Any remaining args?
